@@ -230,6 +230,8 @@ KEYWORDS = {"as", "break", "const", "continue", "crate", "else", "enum", "extern
 
 
 class Parser:
+    allow_unit_return = False   # a subclass whose functions may return `()` sets this; here and in rs2lean_typed.py `return;` is an error
+
     def __init__(self, src, file, allow_strings=False):
         self.file = file
         self.toks = tokenize(src, file, allow_strings)
@@ -469,8 +471,11 @@ class Parser:
             elif self.at("return"):
                 self.next()
                 if self.at(";") or self.at("}"):
-                    self.err("`return` without a value is outside the translated subset", t)
-                e = self.parse_expr()
+                    if not self.allow_unit_return:
+                        self.err("`return` without a value is outside the translated subset", t)
+                    e = None                             # only for rs2lean_generic_struct.py (`&mut self` functions returning `()`)
+                else:
+                    e = self.parse_expr()
                 if not self.at("}"):
                     self.expect(";")
                 stmts.append(Node("return", t.line, expr=e))
